@@ -23,6 +23,12 @@ GNext ==
    /\ (res' # "NotFound" \/ nops % 6 = 5)          \* mostly calls that do something
    /\ (Grow /\ 3 * nops < 2 * MaxOps => op'.op \notin {"remove", "truncate"})
    /\ (Grow /\ nops % 2 = 1 => op'.op \in {"append", "create_dir"} /\ res' \in {"ok", "NotEnoughSpace"})
+   \* simulation mode picks uniformly among successor states, and most successors are renames and creations (many argument
+   \* combinations): thin them out so that removals, truncations and handle calls get their share
+   /\ (op'.op = "rename" => RandomElement(1..10) = 1)
+   /\ (op'.op \in {"create_file", "create_dir"} => RandomElement(1..4) = 1)
+   /\ ("handles" \in Features /\ ~Grow /\ nops % 3 = 1 /\ DOMAIN hs = {} /\ (\E e \in Entries : e.s.kind = "f") => op'.op = "open" /\ res' = "ok")
+   /\ ("handles" \in Features /\ nops % 3 = 2 /\ DOMAIN hs # {} => op'.op \in {"hwrite", "htrunc", "hflush", "hclose"})
    /\ hist' = Append(hist, [op |-> op', res |-> res',
                             \* paths of the directories the call names, evaluated before the call
                             dp |-> IF "d" \in DOMAIN op' THEN DPath(op'.d, N + 1) ELSE <<>>,
